@@ -47,7 +47,8 @@ CHECKS = {
         "text": "Coq theorems C15_get_raw (Ok exactly when off is inside the table and a NUL follows inside it; result = the longest NUL-free "
                 "run at off; otherwise Err), C15_get (same bytes iff well-formed UTF-8), C15_utf8_valid_iff (the from_utf8 environment model "
                 "accepts exactly Unicode Table 3-7). Tie: exhaustive tables <= 5/7 bytes over {NUL, ASCII, lead, continuation} x every offset, "
-                "random 4 KiB tables incl. offset usize::MAX; from_utf8 validated against the real function on structured byte strings.",
+                "8..40-byte tables over bytes adjacent to NUL in every bit position, random 4 KiB tables incl. offset usize::MAX; error kinds (bad offset / "
+                "missing NUL / not UTF-8) compared with the model, payloads not; from_utf8 validated against the real function on structured byte strings.",
         "note": STD_NOTE + " core::str::from_utf8 is an environment model (validated each run against the real function and python's strict decoder).",
         "technique": "Coq proof + exhaustive small-domain correspondence",
     },
